@@ -749,7 +749,8 @@ func (pc *provCtx) storeValidated(st *ssa.Store, f *types.Var) bool {
 	fn := st.Parent()
 	for _, vc := range pc.validatorCalls(fn) {
 		lf, _ := fieldLoad(vc.Call.Args[0])
-		if lf != f || !dominates(st, vc) {
+		// the validator looks at the field just stored, or at the very value that was stored into it
+		if (lf != f && vc.Call.Args[0] != st.Val) || !dominates(st, vc) {
 			continue
 		}
 		if !reachesSuccessWithoutPass(st, vc) {
